@@ -52,8 +52,11 @@ class Sim:
         self.design = design
         if design.unsupported:
             raise Blocked(f"unsupported: {design.unsupported}")
-        if check_static and design.errors:
-            raise Blocked(f"static errors: {design.errors[:3]}")
+        # an incomplete sensitivity list (S-sens) is legal VHDL: the process simply is not resumed by the missing signals,
+        # which is what the kernel does with the list as written; every other static finding blocks the simulation
+        blocking = [e for e in design.errors if e.rule != "S-sens"]
+        if check_static and blocking:
+            raise Blocked(f"static errors: {blocking[:3]}")
         if top is None:
             top = [n for k, n in design.order if k == "architecture"][-1]
         top = top.lower()
